@@ -7,7 +7,7 @@ from . import c01
 
 PROP = 'C10'
 CONFIGS = ('default', 'full-lexer', 'all-nodes', 'num-bigint')
-LAYOUTS = ['plain', 'comments', 'comments-crlf-tab', 'spread-comments']
+LAYOUTS = ['plain', 'comments', 'comments-crlf-tab', 'spread-comments', 'trivia-run']
 NUM_SIGMA = ['0', '1', '9', '_', '.', 'e', 'x', 'b', 'o', 'j', 'f', '-']
 # replacement fields whose expression text holds line breaks / comments: the f-string sub-parser runs its own lexer + token filter
 FIELD_NL = ["f'''{\na\n}'''", "f'''a {f(1,\n     2)} b'''", "f'''{a +\nb=}'''", "f'{a # c}'", "f'''{a # c\n}'''", "f'''{\n# c\na}'''", "f'''{a:{\nw\n}}'''", "f'''{(\na,\n)!r:>{w}}'''",
@@ -65,6 +65,8 @@ def run_shard(args):
                     if v not in seen and k.split(':')[0] in ('line-join', 'in-bracket-break', 'insert-line', 'line-end', 'unterminated-last-line'):
                         seen.add(v)
                         texts.append((v, 'exec', 'site rewrite cost=%d' % cost))
+    elif kind == 'dense':
+        texts = [(t, 'exec', tag) for t, tag in R.dense_family_texts(args[1])[args[2]::8]]
     elif kind == 'fstr':
         texts = [(t, 'exec', 'f-string product') for t in K.fstring_product(args[1])] + [(t, m, 'f-string fields with line breaks/comments') for t in FIELD_NL for m in ('exec', 'eval')]
     elif kind in ('layout', 'lex'):
@@ -126,6 +128,7 @@ def run(tier, seed):
     jobs += [('chars', n, s) for s in X.prefix_shards(R.CHAR_SIGMA, n, 1 if tier == 'quick' else 2)]
     jobs += [('sites', g, d - 1) for g in K.group_shards(K.shards_for(d - 1, 'file'), 64)]
     jobs.append(('fstr', 2 if tier == 'quick' else 3))
+    jobs += [('dense', 48 if tier == 'quick' else 120, k) for k in range(8)]
     ll = 4 if tier == 'quick' else 5
     jobs += [('layout', ll, s) for s in X.prefix_shards(R.LAYOUT_LEX, ll, 1)]
     lx = 2 if tier == 'quick' else 3
